@@ -186,3 +186,11 @@ def c02(F, R, tier):
 def c07(F, R, tier):
     import c07 as mod
     mod.check(F, R)
+
+
+@prop("C06",
+      technique="static: constructor tables per block kind and fold-shape rules on typed HIR, range-operator tables (parser and runtime), scope open/close pairing, adapter white-list, sibling agreement of name spelling, grammar separator",
+      explanation="PARTIAL. Decides (T-BLOCKS) for both BlockFunctionKind and BlockScopedFunctionKind each kind builds the documented form (min->Min, max->Max, all->And, any->Or, xor->left Xor fold with 0, sum->right Add fold with identity 0, prod->right Mul fold with identity 1, avg->sum divided by the count taken before the pop), folds iterate the remaining operands in reverse with the newest operand on the left (source order kept), kinds shared by the two enums agree; (T-RANGE) `..`->exclusive, `..=`->inclusive in the parser, and both integer branches of range() build Range/RangeInclusive accordingly from `from` to `to`; (D-SCOPE) in every function that opens scope frames, opens and Ok-path closes pair up (same iteration list) and iteration variables are declared after the frame is opened; (W-ORDER) no order-changing or filtering adapter between to_primitives() and the loops / folds / declaration expansion; (S-NAMES) the run-time and the static flattening of an indexed name spell every Primitive kind the same way, joined with `_`, which is the grammar's separator. NOT decided: equality of the compiled model with the hand-unrolled one; the set/graph builtin functions' element order.")
+def c06(F, R, tier):
+    import c06 as mod
+    mod.check(F, R, get_grammar())
